@@ -1836,16 +1836,16 @@ theorem CInv_step {s t : CState} {i : Nat} (hc : 1 ≤ c) (hs : Str s) (h : CInv
         simp only [hw, Option.some.injEq] at hst; subst hst
         exact CInv_wactor c ac cy hs h hk hw
 
-theorem CInv_init (conc : Bool) (acl : Bool) (flt : Fault) :
-    CInv c ac cy (initState conc c ac acl cy.ops flt) := by
+theorem CInv_init (conc : Bool) (acl : Bool) (flt : Fault) (reuse : Bool := false) :
+    CInv c ac cy (initState conc c ac acl cy.ops flt reuse) := by
   refine Or.inr (Or.inr ⟨rfl, Or.inl ⟨[], cy.pushes, [], [], ?_⟩⟩)
   refine ⟨by simp, cycle_ops_eq cy, by simp [initState, pushOuts], rfl, rfl, rfl, rfl, rfl, by simp,
     fun _ => ⟨rfl, rfl⟩, DI_init, Or.inl ⟨rfl, rfl, by simp [initState], fun h => by simp [initState] at h⟩⟩
 
-theorem reach_CInv (hc : 1 ≤ c) {conc acl : Bool} {flt : Fault} {s : CState}
-    (h : Reach (sys conc c ac acl cy.ops flt) s) : CInv c ac cy s := by
+theorem reach_CInv (hc : 1 ≤ c) {conc acl : Bool} {flt : Fault} {reuse : Bool} {s : CState}
+    (h : Reach (sys conc c ac acl cy.ops flt reuse) s) : CInv c ac cy s := by
   have : Str s ∧ CInv c ac cy s := by
-    refine inv_of_reach _ (fun s => Str s ∧ CInv c ac cy s) ⟨Str_init _ _ _ _ _ _, CInv_init c ac cy conc acl flt⟩ ?_ s h
+    refine inv_of_reach _ (fun s => Str s ∧ CInv c ac cy s) ⟨Str_init _ _ _ _ _ _ _, CInv_init c ac cy conc acl flt reuse⟩ ?_ s h
     intro a i b hab hst
     exact ⟨Str_step hab.1 hst, CInv_step c ac cy hc hab.1 hab.2 hst⟩
   exact this.2
@@ -1876,11 +1876,11 @@ theorem finished_of_CInv {s : CState} (h : CInv c ac cy s) (hfin : finished s = 
 
 /-! ### without an injected fault nothing fails -/
 
-def NoFault (s : CState) : Prop := s.flt = none ∧ s.m.err = none ∧ ∀ o ∈ s.outs, o.res ≠ .ioerr
+def NoFault (s : CState) : Prop := s.flt = [] ∧ s.m.err = none ∧ ∀ o ∈ s.outs, o.res ≠ .ioerr
 
-theorem tick_none (pt : Pt) : tick none pt = (false, none) := rfl
+theorem tick_none (pt : Pt) : tick [] pt = (false, []) := rfl
 
-theorem clearLoop_none : ∀ (d : Nat) (fs : List File), ∃ d', clearLoop none d fs = (none, d', true) := by
+theorem clearLoop_none : ∀ (d : Nat) (fs : List File), ∃ d', clearLoop [] d fs = ([], d', true) := by
   intro d fs
   induction fs generalizing d with
   | nil => exact ⟨d, rfl⟩
@@ -1888,7 +1888,7 @@ theorem clearLoop_none : ∀ (d : Nat) (fs : List File), ∃ d', clearLoop none 
     obtain ⟨d', h⟩ := ih (d - 1)
     exact ⟨d', by simp [clearLoop, tick_none, h]⟩
 
-theorem primeAll_none : ∀ (fs : List File), ∃ fs', primeAll none fs = (none, fs', true) := by
+theorem primeAll_none : ∀ (fs : List File), ∃ fs', primeAll [] fs = ([], fs', true) := by
   intro fs
   induction fs with
   | nil => exact ⟨[], rfl⟩
@@ -1896,13 +1896,13 @@ theorem primeAll_none : ∀ (fs : List File), ∃ fs', primeAll none fs = (none,
     obtain ⟨fs', h⟩ := ih
     exact ⟨primeFile f :: fs', by simp [primeAll, tick_none, h]⟩
 
-theorem clearF_nofault {s : CState} (h : s.flt = none) :
-    (clearF s).2 = .ok ∧ (clearF s).1.flt = none ∧ (clearF s).1.m.err = none := by
+theorem clearF_nofault {s : CState} (h : s.flt = []) :
+    (clearF s).2 = .ok ∧ (clearF s).1.flt = [] ∧ (clearF s).1.m.err = none := by
   obtain ⟨d', hd⟩ := clearLoop_none s.onDisk s.m.files
   refine ⟨?_, ?_, ?_⟩ <;> simp [clearF, h, hd, (clear_len_pos s.m).2.2]
 
-theorem wstep_nofault {s s' : CState} {w w' : Writer} (hf : s.flt = none) (h : wstep s w = some (w', s')) :
-    s'.flt = none ∧ s'.m.err = s.m.err ∧ s'.outs = s.outs := by
+theorem wstep_nofault {s s' : CState} {w w' : Writer} (hf : s.flt = []) (h : wstep s w = some (w', s')) :
+    s'.flt = [] ∧ s'.m.err = s.m.err ∧ s'.outs = s.outs := by
   unfold wstep at h
   cases hpc : w.pc <;> simp only [hpc, hf, tick_none] at h
   · cases hr : s.writable.recv with
@@ -1924,8 +1924,8 @@ theorem wstep_nofault {s s' : CState} {w w' : Writer} (hf : s.flt = none) (h : w
     · simp at h
   · simp at h
 
-theorem condClear_nofault (b : Bool) {s : CState} (hf : s.flt = none) (he : s.m.err = none) :
-    (if b = true then (clearF s).1 else s).flt = none ∧ (if b = true then (clearF s).1 else s).m.err = none := by
+theorem condClear_nofault (b : Bool) {s : CState} (hf : s.flt = []) (he : s.m.err = none) :
+    (if b = true then (clearF s).1 else s).flt = [] ∧ (if b = true then (clearF s).1 else s).m.err = none := by
   cases b
   · exact ⟨hf, he⟩
   · exact ⟨(clearF_nofault hf).2.1, (clearF_nofault hf).2.2⟩
@@ -1933,8 +1933,8 @@ theorem condClear_nofault (b : Bool) {s : CState} (hf : s.flt = none) (he : s.m.
 theorem atEof_keep (s : CState) : (atEof s).flt = s.flt ∧ (atEof s).m = s.m := by
   unfold atEof; split <;> exact ⟨rfl, rfl⟩
 
-theorem pullF_nofault {s : CState} (hf : s.flt = none) (he : s.m.err = none) :
-    (pullF s).2.1 ≠ .ioerr ∧ (pullF s).1.flt = none ∧ (pullF s).1.m.err = none := by
+theorem pullF_nofault {s : CState} (hf : s.flt = []) (he : s.m.err = none) :
+    (pullF s).2.1 ≠ .ioerr ∧ (pullF s).1.flt = [] ∧ (pullF s).1.m.err = none := by
   cases hfa : s.m.fast
   · cases hpm : popMin s.m.files with
     | none =>
@@ -1974,7 +1974,7 @@ theorem pullF_nofault {s : CState} (hf : s.flt = none) (he : s.m.err = none) :
             (s := { s with m := { s.m with pool := s.m.pool + 1, chunk := none } }) hf he
           exact ⟨by simp, by rw [a]; exact c', by rw [b]; exact d⟩
 
-theorem NoFault_finish {s s1 : CState} (h : NoFault s) (hf : s1.flt = none) (he : s1.m.err = none)
+theorem NoFault_finish {s s1 : CState} (h : NoFault s) (hf : s1.flt = []) (he : s1.m.err = none)
     (ho : s1.outs = s.outs) (r : Res) (v : Option Elem) (hr : r ≠ .ioerr) : NoFault (finishOp s1 r v) := by
   refine ⟨hf, he, ?_⟩
   intro o hmem
@@ -2066,8 +2066,8 @@ theorem NoFault_step {s t : CState} {i : Nat} (h : NoFault s) (hst : step s i = 
         obtain ⟨a, b, c'⟩ := wstep_nofault h.1 hw
         exact ⟨a, by show s'.m.err = none; rw [b]; exact h.2.1, by show ∀ o ∈ s'.outs, _; rw [c']; exact h.2.2⟩
 
-theorem reach_NoFault {conc : Bool} {c : Nat} {ac acl : Bool} {prog : List Op} {s : CState}
-    (h : Reach (sys conc c ac acl prog none) s) : NoFault s :=
+theorem reach_NoFault {conc : Bool} {c : Nat} {ac acl : Bool} {prog : List Op} {reuse : Bool} {s : CState}
+    (h : Reach (sys conc c ac acl prog [] reuse) s) : NoFault s :=
   inv_of_reach _ NoFault ⟨rfl, rfl, by simp [sys, initState]⟩ (fun _ _ _ hs hst => NoFault_step hs hst) s h
 
 /-! ### residue of the temporary directory: AutoClean -/
@@ -2251,13 +2251,13 @@ theorem EofDir_step {s t : CState} {i : Nat} (h : EofDir s) (hst : step s i = so
         rw [(wstep_dir hw).1]
         exact h.2 (by rw [← (wstep_dir hw).2]; exact hacl) (by rw [← ho]; exact hex)
 
-theorem reach_EofDir {conc : Bool} {c : Nat} {ac acl : Bool} {prog : List Op} {s : CState}
-    (h : Reach (sys conc c ac acl prog none) s) : EofDir s :=
+theorem reach_EofDir {conc : Bool} {c : Nat} {ac acl : Bool} {prog : List Op} {reuse : Bool} {s : CState}
+    (h : Reach (sys conc c ac acl prog [] reuse) s) : EofDir s :=
   inv_of_reach _ EofDir ⟨⟨rfl, rfl, by simp [sys, initState]⟩, fun _ h' => by simp [sys, initState] at h'⟩
     (fun _ _ _ hs hst => EofDir_step hs hst) s h
 
-theorem autoClean_const {conc : Bool} {c : Nat} {ac acl : Bool} {prog : List Op} {flt : Fault} {s : CState}
-    (h : Reach (sys conc c ac acl prog flt) s) : s.autoClean = acl := by
+theorem autoClean_const {conc : Bool} {c : Nat} {ac acl : Bool} {prog : List Op} {flt : Fault} {reuse : Bool} {s : CState}
+    (h : Reach (sys conc c ac acl prog flt reuse) s) : s.autoClean = acl := by
   refine inv_of_reach _ (fun s => s.autoClean = acl) rfl ?_ s h
   intro a i b ha hst
   cases i with
@@ -2289,9 +2289,9 @@ def atReg (w : Writer) : Bool := w.pc == .register
 /-- run files present in the directory = registered files + files created but not yet registered
     (AutoClear set, AutoClean not set, no fault injected) -/
 def DiskInv (s : CState) : Prop :=
-  s.flt = none ∧ s.m.autoClear = true ∧ s.autoClean = false ∧ s.onDisk = s.m.files.length + cnt atReg s
+  s.flt = [] ∧ s.m.autoClear = true ∧ s.autoClean = false ∧ s.onDisk = s.m.files.length + cnt atReg s
 
-theorem clearLoop_none' : ∀ (d : Nat) (fs : List File), clearLoop none d fs = (none, d - fs.length, true) := by
+theorem clearLoop_none' : ∀ (d : Nat) (fs : List File), clearLoop [] d fs = ([], d - fs.length, true) := by
   intro d fs
   induction fs generalizing d with
   | nil => rfl
@@ -2299,14 +2299,14 @@ theorem clearLoop_none' : ∀ (d : Nat) (fs : List File), clearLoop none d fs = 
     simp only [clearLoop, tick_none, Bool.false_eq_true, if_false, ih (d - 1), List.length_cons]
     congr 2; omega
 
-theorem primeAll_none' : ∀ (fs : List File), primeAll none fs = (none, fs.map primeFile, true) := by
+theorem primeAll_none' : ∀ (fs : List File), primeAll [] fs = ([], fs.map primeFile, true) := by
   intro fs
   induction fs with
   | nil => rfl
   | cons f fs ih => simp [primeAll, tick_none, ih]
 
-theorem clearF_disk {s : CState} (hf : s.flt = none) :
-    (clearF s).1.flt = none ∧ (clearF s).1.onDisk = s.onDisk - s.m.files.length ∧ (clearF s).1.m.files = []
+theorem clearF_disk {s : CState} (hf : s.flt = []) :
+    (clearF s).1.flt = [] ∧ (clearF s).1.onDisk = s.onDisk - s.m.files.length ∧ (clearF s).1.m.files = []
     ∧ (clearF s).1.m.autoClear = s.m.autoClear := by
   have hfiles : (clear s.m).files = [] := by unfold clear; split <;> rfl
   have hac : (clear s.m).autoClear = s.m.autoClear := by unfold clear; split <;> rfl
@@ -2318,13 +2318,13 @@ theorem popMin_length {fs : List File} {low : File} {others : List File}
   simpa using this
 
 /-- the effect of `Pull` on the directory under AutoClear (no AutoClean, no fault) -/
-theorem pullF_disk {s : CState} (hf : s.flt = none) (hac : s.m.autoClear = true) (hacl : s.autoClean = false)
+theorem pullF_disk {s : CState} (hf : s.flt = []) (hac : s.m.autoClear = true) (hacl : s.autoClean = false)
     (hle : s.m.files.length ≤ s.onDisk) :
-    (pullF s).1.flt = none ∧ (pullF s).1.m.autoClear = true
+    (pullF s).1.flt = [] ∧ (pullF s).1.m.autoClear = true
     ∧ (pullF s).1.onDisk + s.m.files.length = s.onDisk + (pullF s).1.m.files.length := by
-  have eofcase : ∀ (s1 : CState), s1.flt = none → s1.m.autoClear = true → s1.autoClean = false →
+  have eofcase : ∀ (s1 : CState), s1.flt = [] → s1.m.autoClear = true → s1.autoClean = false →
       s1.onDisk = s.onDisk → s1.m.files = s.m.files →
-      (atEof (clearF s1).1).flt = none ∧ (atEof (clearF s1).1).m.autoClear = true
+      (atEof (clearF s1).1).flt = [] ∧ (atEof (clearF s1).1).m.autoClear = true
       ∧ (atEof (clearF s1).1).onDisk + s.m.files.length = s.onDisk + (atEof (clearF s1).1).m.files.length := by
     intro s1 h1 h2 h3 h4 h5
     obtain ⟨a, b, c', d⟩ := clearF_disk h1
@@ -2358,7 +2358,7 @@ theorem pullF_disk {s : CState} (hf : s.flt = none) (hac : s.m.autoClear = true)
           exact eofcase { s with m := { s.m with pool := s.m.pool + 1, chunk := none } } hf hac hacl rfl rfl
 
 /-- the effect of one `write()` block on the directory (no fault) -/
-theorem wstep_disk {s s' : CState} {w w' : Writer} (hf : s.flt = none) (h : wstep s w = some (w', s')) :
+theorem wstep_disk {s s' : CState} {w w' : Writer} (hf : s.flt = []) (h : wstep s w = some (w', s')) :
     s'.onDisk + s.m.files.length + b2n (atReg w) = s.onDisk + s'.m.files.length + b2n (atReg w')
     ∧ s'.m.autoClear = s.m.autoClear := by
   unfold wstep at h
@@ -2393,7 +2393,7 @@ theorem wstep_disk {s s' : CState} {w w' : Writer} (hf : s.flt = none) (h : wste
     · simp at h
   · simp at h
 
-theorem DiskInv_keep {s t : CState} (h : DiskInv s) (hf : t.flt = none) (hac : t.m.autoClear = true)
+theorem DiskInv_keep {s t : CState} (h : DiskInv s) (hf : t.flt = []) (hac : t.m.autoClear = true)
     (hacl : t.autoClean = false) (hd : t.onDisk = s.onDisk) (hfl : t.m.files.length = s.m.files.length)
     (hc : cnt atReg t = cnt atReg s) : DiskInv t :=
   ⟨hf, hac, hacl, by rw [hd, hfl, hc]; exact h.2.2.2⟩
@@ -2538,11 +2538,11 @@ theorem DiskInv_step {s t : CState} {i : Nat} (hs : Str s) (h : DiskInv s) (hst 
         show s'.onDisk = s'.m.files.length + _
         omega
 
-theorem reach_DiskInv {conc : Bool} {c : Nat} {prog : List Op} {s : CState}
-    (h : Reach (sys conc c true false prog none) s) : DiskInv s := by
+theorem reach_DiskInv {conc : Bool} {c : Nat} {prog : List Op} {reuse : Bool} {s : CState}
+    (h : Reach (sys conc c true false prog [] reuse) s) : DiskInv s := by
   have : Str s ∧ DiskInv s := by
     refine inv_of_reach _ (fun s => Str s ∧ DiskInv s)
-      ⟨Str_init _ _ _ _ _ _, rfl, rfl, rfl, by simp [sys, initState, cnt, b2n]⟩ ?_ s h
+      ⟨Str_init _ _ _ _ _ _ _, rfl, rfl, rfl, by simp [sys, initState, cnt, b2n]⟩ ?_ s h
     intro a i b hab hst
     exact ⟨Str_step hab.1 hst, DiskInv_step hab.1 hab.2 hst⟩
   exact this.2
